@@ -1,5 +1,6 @@
 import RasnModel.Basic.Sexp
 import RasnModel.Link.ComponentsOf
+import RasnModel.Link.Params
 /- line-protocol handler for C09 (COMPONENTS OF) -/
 namespace Driver.C09
 open Sexp Link
@@ -27,6 +28,34 @@ def handle : List Sexp → String
           ",".intercalate (rootOf m) ++ "|" ++ ",".intercalate (specRoot fuel env [top] s)
       | none => "bad-request"
     | _, _ => "bad-request"
+  | _ => "bad-request"
+
+/-! value parameters of parameterized types -/
+open Link.Params in
+def parseVal : Sexp → Option Link.Params.Val
+  | .list [.atom "lit", n] => (asInt n).map Link.Params.Val.lit
+  | .list [.atom "ref", x] => (asText x).map Link.Params.Val.ref
+  | _ => none
+
+def parseDef : Sexp → Option (String × Link.Params.Val)
+  | .list [n, v] => do pure (← asText n, ← parseVal v)
+  | _ => none
+
+def showVals (vs : List Link.Params.Val) : String :=
+  " ".intercalate (vs.map fun v => match v with | .lit n => toString n | .ref x => "?" ++ x)
+
+/-- `c09params ( (name val)… ) ( formal… ) ( body val… ) ( arg val… )`
+    ↦ `<model: bounds of the instance> | <spec: bounds of the hand-expanded definition> | <in-domain t/f>` -/
+def handleParams : List Sexp → String
+  | [.list ds, .list fs, .list body, .list args] =>
+    match ds.mapM parseDef, fs.mapM asText, body.mapM parseVal, args.mapM parseVal with
+    | some m, some formals, some body, some args =>
+      let t : Link.Params.Template := ⟨formals, body⟩
+      let inst := Link.Params.instantiate m t args
+      let exp := Link.Params.expanded m t args
+      let closed := exp.all (fun v => match v with | .lit _ => true | _ => false) && formals.length == args.length
+      showVals inst ++ " | " ++ showVals exp ++ " | " ++ (if closed then "t" else "f")
+    | _, _, _, _ => "bad-request"
   | _ => "bad-request"
 
 end Driver.C09
